@@ -1,0 +1,33 @@
+//go:build verif
+// +build verif
+
+package bal_slb
+
+import (
+	"github.com/bfenetworks/bfe/bfe_balance/backend"
+)
+
+// Hooks for the out-of-tree verification harness of property C02 (build tag verif).  Add-only.
+
+// VerifC02Backends returns the backend handles in current list order.
+func (brr *BalanceRR) VerifC02Backends() []*backend.BfeBackend {
+	brr.Lock()
+	defer brr.Unlock()
+	out := make([]*backend.BfeBackend, 0, len(brr.backends))
+	for _, b := range brr.backends {
+		out = append(out, b.backend)
+	}
+	return out
+}
+
+// VerifC02SetWeight sets weight (and current) of the backend with the given AddrInfo, without x100 scaling.
+func (brr *BalanceRR) VerifC02SetWeight(addrInfo string, weight int) {
+	brr.Lock()
+	defer brr.Unlock()
+	for _, b := range brr.backends {
+		if b.backend.AddrInfo == addrInfo {
+			b.weight = weight
+			b.current = weight
+		}
+	}
+}
